@@ -24,6 +24,7 @@ RULE = (
     "A 'hist' kind runs histories of sends (all commands) interleaved with received wake, presentation and other messages on one gateway: every send must end in one of the three ways, and a line held for a sleeping node (the latest per child/type for set commands) is owed at that node's next wake. A 'race' kind replays small send-versus-flush configurations under every schedule (C09's scheduler): a send that returned normally must still reach the transport. Enumerated part: every command x type 0..max+1 of the version's table x destination x buffering. Non-trivial = command other than set, "
     "or a sleeping destination; distinct = distinct case JSON."
     ' Round 5: histories contain `session`, `save`, `reload` and `fault n` events; two parked commands + one event of every kind + two wakes enumerated.'
+    ' Round 6: destinations registered and presented with arbitrary version texts.'
 )
 ASSUMPTIONS = [
     "for protocols 1.4/1.5, which have no wake message, 'next wake' is observed after the gateway reports 2.2.0 and the node sends a pre-sleep notification",
